@@ -177,6 +177,76 @@ def one_run(job):
     return tag, cmd, A, viol, stats
 
 
+MUT_SYSCALLS = {'mkdir', 'mkdirat', 'unlink', 'unlinkat', 'rmdir', 'rename', 'renameat', 'renameat2', 'symlink', 'symlinkat', 'link', 'linkat',
+                'chmod', 'fchmodat', 'chown', 'lchown', 'fchownat', 'utime', 'utimes', 'utimensat', 'futimesat', 'truncate', 'mknod', 'mknodat', 'creat'}
+
+
+def strace_crosscheck(ctx, exe, so, base, jobs, n):
+    """The monitor's own completeness, observed: every mutating file syscall that strace sees the tool issue must have a shim event
+    for the same path.  (The shim can only see libc entry points; a path-taking call it does not interpose would show up here.)"""
+    import re, subprocess
+    sample = [j for j in jobs if j[3][0] in 'xe' and 'n' not in j[3][1:].split('w')[0]][:: max(1, len(jobs) // n)][:n]
+    missing = 0
+    seen = 0
+    runs = 0
+    for j in sample:
+        nn, tag, A, cmd = j[0], j[1], j[2], j[3]
+        d = os.path.join(base, 'st%d' % nn)
+        root = os.path.join(d, 'root')
+        os.makedirs(d)
+        cli.mkdir_for_nobody(root)
+        cli.mkdir_for_nobody(os.path.join(d, 'canary'))
+        open(os.path.join(root, 'a.lzh'), 'wb').write(A)
+        os.chmod(os.path.join(root, 'a.lzh'), 0o644)
+        os.chmod(d, 0o777)
+        slog = os.path.join(d, 'strace.log')
+        flog = os.path.join(d, 'fs.log')
+        open(flog, 'w').close()
+        os.chmod(flog, 0o666)
+        env = {'PATH': '/usr/bin:/bin', 'TZ': 'UTC', 'VERIF_FS_LOG': flog, 'VERIF_FS_ROOT': root}
+        # the shim is preloaded into the traced tool only (-E), not into strace itself
+        r = subprocess.run(cli.NOBODY + ['strace', '-f', '-qq', '-o', slog, '-E', 'LD_PRELOAD=' + so, '-e', 'trace=%file', exe, cmd, 'a.lzh'], cwd=root, env=env,
+                           input=b'y\n' * 20, capture_output=True, timeout=120)
+        evs = fsmon.parse_log(flog)
+        have = {}
+        for e in evs:
+            if e.mutating and not e.denied:
+                have.setdefault(e.arg, []).append(e.call)
+        runs += 1
+        started = False
+        for line in open(slog, 'rb').read().decode('latin1').split('\n'):
+            m = re.match(r'\d+\s+(\w+)\((.*)', line)
+            if not m:
+                continue
+            sc, rest = m.group(1), m.group(2)
+            if sc == 'execve' and 'a.lzh' in rest:
+                started = True
+                continue
+            if not started:
+                continue
+            mut = sc in MUT_SYSCALLS or (sc in ('open', 'openat') and re.search(r'O_WRONLY|O_RDWR|O_CREAT|O_TRUNC', rest))
+            if not mut:
+                continue
+            pm = re.findall(r'"((?:[^"\\]|\\.)*)"', rest)
+            if not pm:
+                continue
+            path = pm[-1] if sc.startswith('symlink') else pm[0]
+            pb = path.encode('latin1').decode('unicode_escape').encode('latin1')
+            if pb == flog.encode():
+                continue
+            seen += 1
+            if pb not in have:
+                missing += 1
+                ctx.violation('C10-monitor-incomplete:%s' % sc, 'strace saw %s(%r) by the tool, the LD_PRELOAD monitor has no event for that path (monitor '
+                              'blind spot - the machinery, not lhasa, is at fault)' % (sc, pb), A)
+        shutil.rmtree(d, ignore_errors=True)
+    ctx.cov['strace_crosscheck_runs'] = runs
+    ctx.cov['strace_mutating_syscalls_seen'] = seen
+    ctx.cov['strace_mutating_syscalls_without_monitor_event'] = missing
+    if runs and seen == 0:
+        raise core.HarnessFailure('strace cross-check saw no mutating syscalls at all')
+
+
 def run(ctx):
     b = build.Builder()
     exe = b.cli('plain')
@@ -276,6 +346,7 @@ def run(ctx):
             ctx.hist('runs_by_class', tag.split(':')[0])
             for k, w in viol:
                 ctx.violation(k, w + ' [%s]' % tag, A)
+    strace_crosscheck(ctx, exe, so, base, jobs, 40 if ctx.tier == 'quick' else 1500)
     ctx.sample({'sequence': jobs[5][1], 'command': jobs[5][3], 'archive_hex': jobs[5][2].hex()[:160]})
     ctx.sample({'sequence': jobs[-1][1], 'command': jobs[-1][3]})
     if ctx.cov.get('dangerous_symlink_attempts', 0) < 10 or ctx.cov.get('mutating_events', 0) < 1000:
